@@ -5,6 +5,7 @@
 //! One binary per family of properties lives under src/bin/ (cargo discovers them).
 
 pub mod datum;
+pub mod dynde;
 pub mod generate;
 pub mod jsontree;
 pub mod term;
